@@ -3,7 +3,7 @@
 From Coq Require Import ZArith List Bool.
 From Centro Require Import Base.Sx Base.EmdBase Spec.Emd Model.Emd Model.EmdCert
   Proofs.EmdDuality Proofs.EmdScaled Proofs.EmdModel Proofs.EmdSsp Proofs.EmdCertModel Proofs.EmdMetric
-  Proofs.EmdFuel Proofs.EmdHeap.
+  Proofs.EmdFuel Proofs.EmdHeap Proofs.EmdTransform.
 From Centro Require Import Model.EmdMcf.
 Import ListNotations.
 Open Scope Z_scope.
@@ -84,7 +84,8 @@ Print Assumptions C10_model_emd_correct.
    and the solver never runs out of fuel (C10_ssp_fuel_sufficient).
    MISSING: lemma ssp_reduced_costs_nonneg (no negative residual cycle is ever created, so no step
    returns Fail, the final flow is of minimum cost and the dual search succeeds) and the read-back
-   book-keeping (read_back / transform_flow_to_regular / my_dist).  Observed instead: the certified model answers
+   book-keeping of read_back and my_dist (transform_flow_to_regular is done:
+   C10_transform_regular_completes).  Observed instead: the certified model answers
    on every generated instance of every run (a None is reported as a correspondence failure).
    (Example: Proofs.EmdSsp.solver_hyps_example.) *)
 Theorem C10_model_total_partial : forall bb cc arcs',
@@ -170,3 +171,19 @@ Theorem C10_heap_init_ok : forall nv from, (from < nv)%nat ->
   ents_ok (heap_init nv from) /\ length (fst (heap_init nv from)) = nv /\ length (snd (heap_init nv from)) = nv.
 Proof. exact heap_init_ok. Qed.
 Print Assumptions C10_heap_init_ok.
+
+(* Book-keeping of flow_utils.hpp transform_flow_to_regular as transcribed (north-west-corner
+   completion, fuel 2N+1): from ANY flow F within supplies and demands it always returns, and the
+   result contains F and is a feasible flow of the transportation problem moving min(sum P,sum Q).
+   All sizes.  (Example: Proofs.EmdTransform.transform_example.) *)
+Theorem C10_transform_regular_completes : forall F P Q,
+  let N := length P in
+  square N F -> length Q = N ->
+  (forall a b, 0 <= mz F a b) ->
+  (forall a, (a < N)%nat -> rowsum N (mz F) a <= nz P a) ->
+  (forall b, (b < N)%nat -> colsum N (mz F) b <= nz Q b) ->
+  exists F', transform_flow_to_regular F P Q = Some F' /\ square N F' /\
+             (forall a b, mz F a b <= mz F' a b) /\
+             feasible N N (nz P) (nz Q) (emd_T P Q) (mz F').
+Proof. exact transform_regular_spec. Qed.
+Print Assumptions C10_transform_regular_completes.
